@@ -1,0 +1,26 @@
+//go:build verif
+
+package proxy
+
+import (
+	"context"
+	"net"
+	"net/http"
+)
+
+// VerifDialContext, when set, replaces the dialer of every upstream transport.
+// Simulation builds only.
+var VerifDialContext func(ctx context.Context, network, addr string) (net.Conn, error)
+
+func verifPatchTransport(tr *http.Transport) {
+	if VerifDialContext == nil {
+		return
+	}
+	tr.Proxy = nil
+	tr.DialContext = VerifDialContext
+	tr.DialTLSContext = VerifDialContext
+	tr.DisableKeepAlives = true
+}
+
+// VerifResolved exposes the upstream configurations resolved by SetUpstreamConfigs.
+func (uc *UpstreamConfigs) VerifResolved() []*UpstreamConfig { return uc.upstreamConfigs }
